@@ -91,8 +91,7 @@ def check(tier, seed, only=None, skip_a=False, skip_b=False):
         fns += [x for x in v if x not in fns]
       else:
         cov[k] = v
-    cov["assumed_callee_contracts"] = [{"callee": k, "stated_in": "contracts/callee.py", "discharged_in_this_run_by": v}
-                                       for k, v in callee.DISCHARGED_BY.items()]
+    cov["assumed_callee_contracts"] = callee.assumed("ClockTime.from_seconds")
     findings += findings_a
     undecided += undecided_a
     errors += errors_a
